@@ -16,6 +16,8 @@ pub enum Case {
     W1TwinInfallible(W1Script),
     /// C07: the history with and without set_allocation_limit(Some(x)); set_allocation_limit(None) pairs
     W1TwinPulse(W1Script),
+    /// collections clients in one arena, mirrored by std collections
+    W2(crate::w2_ops::W2Script),
 }
 
 #[derive(Clone, Debug, Serialize, Deserialize)]
@@ -138,6 +140,17 @@ fn compare_traces(prop: &str, oracle: &str, a: &RunReport, b: &RunReport, out: &
 /// when set, every case is appended to this file before it is executed (crash attribution)
 pub static TRACE: std::sync::Mutex<Option<std::fs::File>> = std::sync::Mutex::new(None);
 
+fn w2_result(rep: crate::w2::W2Report) -> CaseResult {
+    CaseResult {
+        violations: rep.violations,
+        side: Vec::new(),
+        stats: rep.stats,
+        fp: rep.fp,
+        requests: 0,
+        request_sizes: Vec::new(),
+    }
+}
+
 pub fn run_case(case: &Case, ctx: &Ctx) -> CaseResult {
     if let Ok(mut g) = TRACE.lock() {
         if let Some(f) = g.as_mut() {
@@ -147,6 +160,7 @@ pub fn run_case(case: &Case, ctx: &Ctx) -> CaseResult {
         }
     }
     match case {
+        Case::W2(s) => w2_result(crate::w2::exec_w2(s)),
         Case::W1(s) => {
             let rep = exec_w1(s, ExecOpts { focus: ctx.focus, ..Default::default() }, ctx.k);
             CaseResult {
